@@ -215,17 +215,19 @@ def law_at(ctx, shapes):
         if sh in ('sqr', 'cub'):
             ctx.assume(z3.And(levels[i].e >= 0, levels[i + 1].e >= 0))
     where = ctx.choose('where', 2 * n + 2)      # breakpoint k (0..n), inside segment k (0..n-1), after the end
-    names = [f'L{i}' for i in range(n + 1)] + [f'T{i}' for i in range(n)] + [f'C{i}' for i in range(n)] + ['t']
+    names = [f'L{i}' for i in range(n + 1)] + [f'T{i}' for i in range(n)] + [f'C{i}' for i in range(n)] + ['t', 'off']
     data = {'key': f'env:at:{"+".join(shapes)}', 'replay': {'mode': 'nrt', 'kind': 'at', 'shapes': list(shapes),
                                                             'where': where, 'names': names}}
-    tk = [0]
+    # the envelope may start at any time (offset): breakpoint k is at offset + t_0 + .. + t_{k-1}
+    off = ctx.real('off', -5, 5)
+    tk = [off]
     for d in times:
         tk.append(tk[-1] + d)
     with symx.shims():
-        e = env.Env(list(levels), list(times), curves)
+        e = env.Env(list(levels), list(times), curves, offset=off)
         if where <= n:
             k = where
-            t = tk[k] if k else 0.0
+            t = tk[k]
             v = e._at(t)
             if k < n and shapes[k] == 'step':
                 # a step segment jumps to its target at its start: either neighbouring level is "the level"
@@ -397,20 +399,26 @@ def replay(rec):
         if len(e.levels) != len(L) or len(e.times) != len(T) or \
                 any(not tol(float(a), float(b)) for a, b in zip(list(e.levels) + list(e.times), L + T)):
             return f'{w}: levels {e.levels} times {e.times}, documented {L} {T}'
+        if w == 'xyc':
+            cv = list(e.curves) if isinstance(e.curves, (list, tuple)) else [e.curves]
+            if cv[:2] != ['sin', 'exp']:
+                return f"xyc: segment curves {cv}, documented ['sin', 'exp'] (each segment takes the curve of the " \
+                       f"point it starts from)"
         return None
     shapes, where = rec['shapes'], rec['where']
     n = len(shapes)
     levels = [g(f'L{i}', 1.0 + i) for i in range(n + 1)]
     times = [1.0, 2.0, 0.5][:n] if 'cub' in shapes else [g(f'T{i}', 1.0) for i in range(n)]
     curves = [g(f'C{i}', -3.0) if s == 'num' else s for i, s in enumerate(shapes)]
+    off = g('off', 0.0)
     try:
-        e = E(levels, times, curves)
+        e = E(levels, times, curves, offset=off)
         e._at(0.0)
     except Exception as ex:
         return f'Env({levels}, {times}, {curves})._at(0.0) raised {type(ex).__name__}: {ex}'
     if rec.get('raises'):
         return None
-    tk = [0.0]
+    tk = [off]
     for d in times:
         tk.append(tk[-1] + d)
     if where <= n:
